@@ -39,6 +39,12 @@ def check_object(P, ver, s, deep=True):
     if not ok:
         P.violation("construct", "C09:v%s:exception:%s" % (ver, obs.exc_name(o)), case, error=repr(o))
         return
+    judge_object(P, ver, o, s, deep, case)
+
+
+def judge_object(P, ver, o, s, deep, case):
+    """The invariant proper, on an EXISTING object built from string s (also used as
+    icontract class invariant on objects the library builds itself)."""
     ok, sc = obs.call(o.scores)
     if not ok or not isinstance(sc, tuple) or len(sc) != (1 if ver == "4" else 3):
         P.violation("score-wellformed", "C09:v%s:scores-shape" % ver, case, observed=repr(sc))
@@ -231,6 +237,15 @@ EDGES_REQUIRED = {
 
 
 def run(R):
+    _run(R)
+    # objects the LIBRARY builds itself (text extractor, from_rh_vector, CLI, the repository's own tests)
+    # are judged by the same oracles through icontract contracts attached to the real classes
+    from .. import contracts
+    contracts.session(R, "C09")
+    R.require("contract:invariant")
+
+
+def _run(R):
     R.rule = RULE
     R.require("score-wellformed", "rating-scale", "rating-agreement")
     R.assumptions = ["rating scales: v3/v4 specification qualitative severity rating scale; v2: NVD's Low/Medium/High ranking "
